@@ -69,8 +69,8 @@ func (w *writeRecorder) Write(p []byte) (int, error) {
 // ---- plugin.Main ----
 
 type genAnswer struct {
-	err   bool
-	files []kv
+	err      bool
+	files    []kv
 	nilFiles bool
 }
 
@@ -443,7 +443,7 @@ func runPluginMainChild(s pmSession, chunks [][]byte) string {
 }
 
 func c16PluginMain(c *checker, r *rng.R) {
-	n, nChild := 400, 40
+	n, nChild := 1500, 60
 	if *tier == "thorough" {
 		n, nChild = 20000, 600
 	}
